@@ -48,6 +48,7 @@ type CopyParams struct {
 	RegProfile  *RegProfile    `json:"reg_profile,omitempty"` // remote stores: capability profile of the simulated registries
 	MountFrom   bool           `json:"mount_from,omitempty"`  // remote destination: offer the sibling repository as mount source
 	MountList   int            `json:"mount_list,omitempty"`  // which candidate list MountFrom returns (see mountLists)
+	Raced       []int          `json:"raced,omitempty"`       // C04: nodes another client stores in the destination right before this copy's own Push
 	MountPre    []int          `json:"mount_pre,omitempty"`   // blobs the sibling repository of the destination registry holds
 	NetFaults   []NetFaultAt   `json:"net_faults,omitempty"`  // remote stores: failing HTTP exchanges (C02)
 }
@@ -254,6 +255,12 @@ func (p *copyProp) Gen(r *Rand, tier string, idx int) any {
 	case "C04":
 		cp.API = pick(r, []string{"Copy", "CopyGraph", "ExtendedCopyGraph"})
 		cp.Callbacks = true
+		if r.Chance(0.2) && cp.DstKind != "file" {
+			// (a file store answers a second push of a named file with duplicate-name, which fails the copy)
+			for k := r.Range(1, 2); k > 0; k-- {
+				cp.Raced = append(cp.Raced, r.Intn(len(g.Nodes)))
+			}
+		}
 		cp.Concurrency = r.Range(1, 8)
 		if r.Chance(0.7) {
 			cp.LatencyMs = map[string]int{}
@@ -1163,9 +1170,17 @@ func (p *copyProp) runInBubble(rc *RunCtx, sc *Scenario, cp *CopyParams, g *Grap
 			cp.Faults = faults
 			sc.Params, _ = json.Marshal(cp)
 		}
+		for _, n := range cp.Raced {
+			if n >= 0 && n < len(g.Nodes) {
+				faults = append(faults[:len(faults):len(faults)], FaultSpec{Store: "dst", Op: "Push", Node: n, Occur: 1, Kind: "raced"})
+			}
+		}
 		info.CaseHash = simrt.Mix(info.CaseHash, hashJSON(faults))
 		ex := env.exec(rc, faults, nil, false)
 		account(ex)
+		if ex.mon.firedK["raced"] > 0 {
+			info.Probes["push_raced_by_another_client"] += ex.mon.firedK["raced"]
+		}
 		info.Outcome = string(ex.res.Outcome)
 		if v := outcomeCheck(ex, cp.API); v != nil {
 			return v
@@ -1341,6 +1356,21 @@ func accountingOracle(env *copyEnv, ex *copyExec, info *RunInfo) *Verdict {
 		}
 		if len(c.post) == 1 && c.post[0] < c.pre[0] {
 			return violation("callback-order", "", "node %d: PostCopy before PreCopy", n)
+		}
+	}
+	if !faultFired {
+		// whatever got a PreCopy was taken up for transfer: it ends with exactly one PostCopy
+		// (also when the destination answered "already exists": somebody else was faster)
+		var withCB []int
+		for n := range cb {
+			withCB = append(withCB, n)
+		}
+		sort.Ints(withCB)
+		for _, n := range withCB {
+			c := cb[n]
+			if len(c.pre) == 1 && len(c.post)+len(c.mounted) != 1 {
+				return violation("postcopy-count", "", "node %d got PreCopy but %d PostCopy and %d OnMounted calls in a successful copy", n, len(c.post), len(c.mounted))
+			}
 		}
 	}
 	for n, c := range cb {
